@@ -397,7 +397,9 @@ class Emit:
 
     # ---- names
     def gname(s, name):
-        return (s.prefix if name in s.defined else '') + s.cid(name)
+        c = s.cid(name)
+        if s.prefix and c.startswith(s.prefix): return c         # already carries the module prefix (product entry points)
+        return (s.prefix if name in s.defined else '') + c
     def lname(s, name):
         return ('v' + name[1:]) if re.fullmatch(r'%[0-9]+', name) else ('l_' + s.cid(name))
 
